@@ -4,6 +4,7 @@ import os
 import random
 import re
 import sys
+from concurrent.futures import ThreadPoolExecutor
 
 import v_fuzz
 import vlib
@@ -13,6 +14,7 @@ from props import REGISTRY
 MODES = ["serial", "openmp", "cuda", "hip", "opencl", "metal", "dpcpp"]
 MAX_LEN = 4096
 NEST_CAP = 200                      # C16_NEST_CAP of harness/fuzz_C16.cpp
+HANG_IDS = ("nested-attribute-exponential", "macro-mutual-recursion-hang")   # known findings whose replay is a hang
 
 # tier -> (libFuzzer runs in total, jobs, time cap per process [s] or None)
 TIERS = {
@@ -42,8 +44,13 @@ ASSUMPTIONS = [
     "an #include may only name a file of the sandbox directory the target runs in (inc.h, inc2.h): inputs in which the word "
     "include is followed by a quoted or <...> span containing '/' or '~' on one (spliced) line are skipped and counted — "
     "/dev/zero, /dev/stdin, /proc would test the machine, not OCCA",
-    "inputs are at most %d bytes; bracket nesting deeper than %d is excluded while the known finding "
-    "deep-nesting-stack-overflow is listed (recursive-descent parser: recursion depth = nesting depth)" % (MAX_LEN, NEST_CAP),
+    "inputs are at most %d bytes with bracket nesting at most %d deep (recursive-descent parser: recursion depth = nesting "
+    "depth; 3000 nested parentheses / braces / 4000 pointer stars did not overflow the 8 MB stack, so no finding is "
+    "claimed) and runs of at most 256 unary operator characters (the expression tree of ----...1 is cloned per level: "
+    "quadratic, minutes under ASan); deeper / longer inputs are skipped and counted" % (MAX_LEN, NEST_CAP),
+    "macro bombs are not OCCA defects: inputs whose #define bodies can multiply the text by more than 10^6 (product over the "
+    "definitions of the highest multiplicity of one identifier in the body, to the power of parenthesis depth + 1) are "
+    "skipped and counted",
     "memory leaks are not part of the property (detect_leaks=0): AST nodes dropped on error paths are not reported here",
     "default parser settings plus \"mode\"; okl/validate stays on",
     "hangs: only a unit exceeding the libFuzzer unit time-out (300 s) and then 60 s three times in isolation counts",
@@ -162,6 +169,169 @@ def _seed_dir(wd):
     return v_fuzz.write_corpus(os.path.join(wd, "seeds"), items), src
 
 
+# ------------------------------------------------------------------------------------------------
+# stream 2: token-level mutations of valid kernels (structure-aware; same target, inputs given as files)
+# ------------------------------------------------------------------------------------------------
+_TOKEN = re.compile(rb"""\s+|//[^\n]*|/\*.*?\*/|"(?:[^"\\\n]|\\.)*"|'(?:[^'\\\n]|\\.)*'|[A-Za-z_]\w*|\d[\w.]*|@|<<=|>>=|->|\+\+|--|&&|\|\||[<>=!+\-*/%&|^]=|<<|>>|::|.""", re.S)
+_ATTRS = [b"kernel", b"outer", b"inner", b"shared", b"exclusive", b"tile", b"dim", b"dimOrder", b"atomic", b"barrier", b"restrict",
+          b"max_inner_dims", b"nobarrier", b"simd_length", b"directive", b"foo"]
+_SPLICE = [b"(", b")", b"{", b"}", b"[", b"]", b";", b",", b"@", b"@outer", b"@inner", b"@shared", b"@exclusive", b"@tile(4,@outer,@inner)",
+           b"@dim(2,2)", b"@atomic", b"@barrier()", b"@kernel", b"@restrict", b"int", b"float", b"*", b"&", b"const", b"for", b"if", b"else",
+           b"while", b"return", b"break", b"continue", b"struct", b"typedef", b"=", b"+", b"-", b"?", b":", b"0", b"1", b"n", b"i0", b"o0",
+           b"#define X", b"\n#if 1\n", b"\n#endif\n", b"\n#else\n", b"sizeof", b"...", b"::", b"->", b"++", b"<", b">", b"<<", b"\"s\"", b"'c'"]
+
+
+def mutate_tokens(rnd, text):
+    """1-3 token-level edits of `text` (bytes): delete / duplicate / swap / replace a token, drop or add a bracket, change or
+    move an attribute, truncate, splice a piece of another position"""
+    toks = [m.group(0) for m in _TOKEN.finditer(text)]
+    idx = [i for i, t in enumerate(toks) if not t.isspace()]
+    for _ in range(rnd.choice([1, 1, 1, 2, 2, 3])):
+        if len(idx) < 4:
+            break
+        op = rnd.randrange(12)
+        i = rnd.choice(idx)
+        if op == 0:
+            toks[i] = b""
+        elif op == 1:
+            toks[i] = toks[i] + b" " + toks[i]
+        elif op == 2:
+            j = rnd.choice(idx)
+            toks[i], toks[j] = toks[j], toks[i]
+        elif op == 3:
+            br = [k for k in idx if toks[k] in (b"{", b"}", b"(", b")", b"[", b"]")]
+            if br:
+                toks[rnd.choice(br)] = b""
+        elif op == 4:
+            at = [k for k in idx if toks[k] == b"@"]
+            if at:
+                k = rnd.choice(at)
+                nxt = [q for q in idx if q > k]
+                if nxt:
+                    toks[nxt[0]] = rnd.choice(_ATTRS)
+        elif op == 5:
+            cut = rnd.choice(idx)
+            toks = toks[:cut]
+        elif op == 6:
+            toks[i] = rnd.choice(_SPLICE)
+        elif op == 7:
+            toks.insert(i, rnd.choice(_SPLICE) + b" ")
+        elif op == 8:
+            j = rnd.choice(idx)
+            a, b = min(i, j), max(i, j)
+            piece = toks[a:min(b, a + 12) + 1]
+            k = rnd.choice(idx)
+            toks[k:k] = piece
+        elif op == 9:
+            j = rnd.choice(idx)
+            a, b = min(i, j), max(i, j)
+            del toks[a:min(b, a + 8) + 1]
+        elif op == 10:
+            at = [k for k in idx if toks[k] == b"@"]
+            if at:
+                k = rnd.choice(at)
+                nxt = [q for q in idx if q > k]
+                if nxt:
+                    piece = [toks[k], toks[nxt[0]]]
+                    toks[k] = toks[nxt[0]] = b""
+                    toks.insert(rnd.choice(idx), b" ".join(piece) + b" ")
+        else:
+            toks[i] = rnd.choice([b"0", b"-1", b"n", b"", b"()", b"(,)", b"[]", b"{}", b"@", b"1.5", b"\"", b"'", b"/*"])
+        idx = [q for q, t in enumerate(toks) if t and not t.isspace()]
+    return b"".join(toks)[:MAX_LEN - 1]
+
+
+def mutant_inputs(count, tag="mut"):
+    """`count` inputs (selector byte + mutated kernel) derived from VERIF_SEED: bases are generated C20 kernels, the .okl
+    files, the kernels of the tests and corpus/C16"""
+    import p_C20
+    texts, _, kinds = _seed_texts()
+    bases = [t for t, kd in zip(texts, kinds) if kd in ("okl", "joined", "hand") and len(t) < MAX_LEN - 1 and b"@kernel" in t]
+    rnd = random.Random(vlib.derive(vlib.seed(), "C16", tag))
+    res = []
+    g = 0
+    while len(res) < count:
+        if rnd.random() < 0.6 or not bases:
+            g += 1
+            base = p_C20.render(p_C20.program(random.Random(vlib.derive(vlib.seed(), "C16", tag, "g", g))), "m%d" % g).okl.encode()
+            if len(base) >= MAX_LEN - 1:
+                continue
+        else:
+            base = rnd.choice(bases)
+        sel = rnd.randrange(7) + (7 if rnd.random() < 0.15 else 0)
+        res.append(bytes([ord("0") + sel]) + mutate_tokens(rnd, base))
+    return res
+
+
+def run_mutants(prop, binary, wd, out, inputs, env, known, jobs=vlib.NCPU):
+    """runs the inputs through the libFuzzer binary as files, `jobs` processes; a dying process names the failing file in
+    its last `Running:` line; failures are de-duplicated by signature, confirmed 3x and saved as violation replays"""
+    d = os.path.join(wd, "mut")
+    os.makedirs(d, exist_ok=True)
+    files = []
+    for k, b in enumerate(inputs):
+        f = os.path.join(d, "m%05d.bin" % k)
+        with open(f, "wb") as fh:
+            fh.write(b)
+        files.append(f)
+    chunks = [files[i::jobs] for i in range(jobs)]
+
+    def work(ci):
+        rest, res, b, execd = list(chunks[ci]), [], 0, 0
+        while rest:
+            b += 1
+            e = vlib.base_env(wd, "mu%d" % ci)
+            e.update(env)
+            e["VERIF_KNOWN"] = known
+            e["VERIF_STATS"] = os.path.join(d, "stats%d_%d.json" % (ci, b))
+            lf = os.path.join(d, "log%d_%d.txt" % (ci, b))
+            rc, _ = vlib.run_proc([binary, "-timeout=300", "-rss_limit_mb=4096", "-detect_leaks=0"] + rest, e, 7200, lf)
+            o = open(lf, errors="replace").read()
+            if rc == 0:
+                execd += len(rest)
+                break
+            started = re.findall(r"^Running: (.*)$", o, re.M)
+            bad = os.path.normpath(started[-1].strip()) if started else rest[0]
+            if bad not in rest:
+                bad = rest[0]
+            res.append(bad)
+            execd += rest.index(bad) + 1
+            rest = rest[rest.index(bad) + 1:]
+        return res, execd, [os.path.join(d, "stats%d_%d.json" % (ci, k)) for k in range(1, b + 1)]
+
+    with ThreadPoolExecutor(max_workers=jobs) as ex:
+        results = list(ex.map(work, range(jobs)))
+    import json
+    failing = []
+    for res, execd, stats in results:
+        out.evaluations += execd
+        failing += res
+        for sf in stats:
+            try:
+                st = json.load(open(sf))
+            except (OSError, ValueError):
+                continue
+            st.pop("evaluations", None)
+            st["classes"] = dict(("mutants:" + k[5:] if k.startswith("fuzz:") else k, v) for k, v in st.get("classes", {}).items())
+            out.merge_stats(st)
+    seen = {}
+    for f in sorted(failing, key=os.path.getsize):
+        runs3 = [v_fuzz.run_input(binary, f, wd, known=known, tag="mc%d" % k, extra_env=env) for k in range(3)]
+        if not all(s != "pass" for s, _ in runs3):
+            out.notes.append("mutant input %s failed in the batch but not 3x in isolation %s" % (os.path.basename(f), [s for s, _ in runs3]))
+            continue
+        sig = ("hang: " if runs3[-1][0] == "hang" else "") + v_fuzz.signature(runs3[-1][1])
+        if sig in seen:
+            continue
+        dst = vlib.save_replay(prop, f, "violation_seed%d_mut%d.bin" % (vlib.seed(), len(seen) + 1))
+        seen[sig] = dst
+        data = open(f, "rb").read()
+        out.violations.append((dst, "token-mutated kernel: %s  input(%d bytes)=%s" % (sig, len(data), v_fuzz._escape_bytes(data, 120))))
+    out.extra["mutants"] = {"inputs": len(inputs), "failing": len(failing), "distinct_signatures": len(seen)}
+    if inputs:
+        out.samples.append("mutant: " + v_fuzz._escape_bytes(inputs[0], 200))
+
+
 def _dict(wd):
     words = [w.replace("\\x20", " ") for w in KEYWORDS.split()]
     words += [chr(ord("0") + s) for s in range(14)]
@@ -199,7 +369,8 @@ def run(prop, tier, replay, t0):
 
         out = vlib.Outcome()
         findings = vlib.known_findings(prop)
-        f_bin = [f for f in findings if f.replay.endswith(".bin")]
+        f_hang = [f for f in findings if f.id in HANG_IDS]
+        f_bin = [f for f in findings if f.replay.endswith(".bin") and f.id not in HANG_IDS]
         ids = [f.id for f in findings]
         runs, jobs, cap = TIERS["quick" if tier == "quick" else "thorough"]
         scale = float(os.environ.get("VERIF_C16_SCALE", "1"))     # development aid (loaded machine); recorded below
@@ -210,11 +381,26 @@ def run(prop, tier, replay, t0):
         # 1. saved inputs: regression inputs must pass (known findings are re-run and printed by run_fuzzer)
         v_fuzz.run_saved_inputs(prop, fzbin, wd, out, findings, extra_env=env)
 
+        # known findings that are hangs: their replay needs the full 60 s limit of run_input, so they are confirmed in
+        # the background while the campaign runs (the class is excluded in the target through VERIF_KNOWN)
+        pool = ThreadPoolExecutor(max_workers=max(1, len(f_hang)))
+        hang_jobs = [(f, pool.submit(v_fuzz.run_input, fzbin, os.path.normpath(os.path.join(vlib.VERIF, f.replay)), wd, "",
+                                     60, "kh_" + f.id, env)) for f in f_hang
+                     if os.path.exists(os.path.join(vlib.VERIF, f.replay))]
+
         # 2. libFuzzer campaign
         seeds, src = _seed_dir(wd)
         v_fuzz.run_fuzzer(prop, fzbin, wd, out, runs, MAX_LEN, [seeds], dict_file=_dict(wd), jobs=jobs, thorough_time=cap,
                           findings=f_bin, known_ids=ids, extra_env=env, extra_args=["-detect_leaks=0"])
         out.extra["fuzz"]["seed_corpus"] = src
+        for f, job in hang_jobs:
+            st, _ = job.result()
+            if st != "pass":
+                print("KNOWN-FINDING: property=%s %s [%s]" % (prop, f.text, f.id), flush=True)
+                out.known_printed.append(f.id)
+            else:
+                out.notes.append("known finding %s no longer reproduces (replay finishes within 60 s)" % f.id)
+        pool.shutdown()
         out.extra["engine"] = "libFuzzer (%d processes), seeds derived from VERIF_SEED" % jobs
         return vlib.finish(prop, tier, "exploration", out, RULE, t0, ASSUMPTIONS)
     finally:
